@@ -98,8 +98,14 @@ template <class V> void solve_and_check(Case &c, const std::string &what, int n,
     for (int i = 0; i < n; ++i) for (int a = 0; a < B; ++a) { ZL v(r.uni(-1, 1), VT<V>::cplx ? r.uni(-1, 1) : 0.0); VT<V>::rset(f[i], a, v); fd(i * B + a) = VT<V>::rget(f[i], a); VT<V>::rset(x[i], a, ZL(777, 0)); }
     try {
         std::vector<long> perm;
-        if (via_crs) { backend::crs<V> M(std::tie(C.n, C.ptr, C.col, C.val)); solver::skyline_lu<V> S(M); S(f, x); for (int p : amgcl::verif::access::perm(S)) perm.push_back(p); }
-        else { solver::skyline_lu<V> S(std::tie(C.n, C.ptr, C.col, C.val)); S(f, x); for (int p : amgcl::verif::access::perm(S)) perm.push_back(p); }
+        // solve history on one object: f, another right-hand side, f again (the factorisation and the work vector are reused)
+        std::vector<R> f2(n), x2(n), x3(n); LZV f2d(N); for (int i = 0; i < n; ++i) for (int a = 0; a < B; ++a) { ZL v(r.uni(-1, 1), VT<V>::cplx ? r.uni(-1, 1) : 0.0); VT<V>::rset(f2[i], a, v); f2d(i * B + a) = VT<V>::rget(f2[i], a); VT<V>::rset(x2[i], a, ZL(555, 0)); VT<V>::rset(x3[i], a, ZL(333, 0)); }
+        auto history = [&](auto &S) { S(f, x); S(f2, x2); S(f, x3); for (int p : amgcl::verif::access::perm(S)) perm.push_back(p); };
+        if (via_crs) { backend::crs<V> M(std::tie(C.n, C.ptr, C.col, C.val)); solver::skyline_lu<V> S(M); history(S); }
+        else { solver::skyline_lu<V> S(std::tie(C.n, C.ptr, C.col, C.val)); history(S); }
+        { bool same = true; for (int i = 0; i < n; ++i) for (int a = 0; a < B; ++a) if (VT<V>::rget(x[i], a) != VT<V>::rget(x3[i], a)) same = false; c.check(same, "skyline_lu:reuse:repeated-solve-differs", what + ": solving the same right-hand side again on the same object gives a different result");
+          LZV x2d(N); for (int i = 0; i < n; ++i) for (int a = 0; a < B; ++a) x2d(i * B + a) = VT<V>::rget(x2[i], a); LZV r2 = f2d - A * x2d;
+          c.check_le((double)(vnorm_inf(r2) / (norm_inf(A) * vnorm_inf(x2d) + vnorm_inf(f2d))), eta_bound<V>(N, A), "skyline_lu:reuse:second-solve:" + std::string(VT<V>::name()), what + ": second solve on the same object exceeds the backward error bound"); }
         c.check(is_perm(perm), "skyline_lu:perm-not-permutation", "internal ordering of skyline_lu is not a permutation");
         LZV xd(N); for (int i = 0; i < n; ++i) for (int a = 0; a < B; ++a) xd(i * B + a) = VT<V>::rget(x[i], a);
         LZV res = fd - A * xd; long double eta = vnorm_inf(res) / (norm_inf(A) * vnorm_inf(xd) + vnorm_inf(fd)); double bound = eta_bound<V>(N, A);
@@ -300,7 +306,8 @@ static LZ gen_invertible(int n, int kind, bool cplx, Rng &r, std::string &kname)
 }
 static double inv_bound(int n, bool cplx) { return (cplx ? 4.0 : 1.0) * 2 * 3.0 * n * n * n * std::pow(2.0, n - 1) * (2.2204460492503131e-16 / 2); }
 template <class T> void check_inverse_dyn(Case &c, int n, const LZ &A) {
-    std::vector<T> a(n * n), t(n * n, T(777)); std::vector<int> p(n, -7);
+    // detail::inverse has no state of its own; the caller's scratch buffers are reused across all calls of the process (dirty on entry)
+    static std::vector<T> t(64, T(777)); static std::vector<int> p(8, -7); std::vector<T> a(n * n);
     for (int i = 0; i < n; ++i) for (int j = 0; j < n; ++j) { if constexpr (std::is_same<T, double>::value) a[i * n + j] = (double)A(i, j).real(); else a[i * n + j] = T((double)A(i, j).real(), (double)A(i, j).imag()); }
     detail::inverse(n, a.data(), t.data(), p.data());
     LZ X(n, n); for (int i = 0; i < n; ++i) for (int j = 0; j < n; ++j) X(i, j) = ZL(std::real(a[i * n + j]), std::imag(a[i * n + j]));
@@ -348,7 +355,7 @@ template <> struct QT<float> { static const bool cplx = false; static double eps
 template <> struct QT<Z> { static const bool cplx = true; static double eps() { return 2.2204460492503131e-16; } static const char* name() { return "complex"; } static Z mk(ZL v) { return Z((double)v.real(), (double)v.imag()); } };
 template <class T> ZL toL(const T &v) { return ZL(std::real(v), std::imag(v)); }
 
-template <class T> void qr_case(Case &c, Rng &r, int m, int n, bool colmajor, int kind) {
+template <class T> void qr_case(Case &c, Rng &r, int m, int n, bool colmajor, int kind, detail::QR<T> *shared = nullptr, detail::QR<T> *shared_solve = nullptr) {
     const bool cp = QT<T>::cplx; std::vector<T> a(m * n); LZ A(m, n);
     auto rv = [&]() { return ZL(r.uni(-1, 1), cp ? r.uni(-1, 1) : 0.0); };
     for (int i = 0; i < m; ++i) for (int j = 0; j < n; ++j) A(i, j) = rv();
@@ -363,7 +370,11 @@ template <class T> void qr_case(Case &c, Rng &r, int m, int n, bool colmajor, in
     for (int i = 0; i < m; ++i) for (int j = 0; j < n; ++j) { T v = QT<T>::mk(A(i, j)); A(i, j) = toL(v); a[colmajor ? j * m + i : i * n + j] = v; }
     const int k = std::min(m, n); double g = 6.0 * m * n * (QT<T>::eps() / 2) * (cp ? 4 : 1); std::string T_ = QT<T>::name();
     try {
-        std::vector<T> w = a; detail::QR<T> qr; qr.factorize(m, n, w.data(), colmajor ? detail::col_major : detail::row_major);
+        std::vector<T> w = a; detail::QR<T> fresh; detail::QR<T> &qr = shared ? *shared : fresh; qr.factorize(m, n, w.data(), colmajor ? detail::col_major : detail::row_major);
+        if (shared) {   // object reuse: the result must be bitwise the one of a fresh object
+            std::vector<T> wf = a; detail::QR<T> qf; qf.factorize(m, n, wf.data(), colmajor ? detail::col_major : detail::row_major); bool same = true;
+            for (int i = 0; i < m; ++i) for (int j = 0; j < n; ++j) if (!(qr.Q(i, j) == qf.Q(i, j))) same = false; for (int i = 0; i < std::min(m, n); ++i) for (int j = 0; j < n; ++j) if (!(qr.R(i, j) == qf.R(i, j))) same = false;
+            c.check(same, "qr:reuse:factorize-differs-from-fresh-object:" + T_, "factorize() on a QR object that was used before differs from a fresh object", J().n("m", m).n("n", n)); vf::obs_sum("qr_reused_factorizations"); }
         LZ Qk(m, k), Rk = LZ::Zero(k, n); for (int i = 0; i < m; ++i) for (int j = 0; j < k; ++j) Qk(i, j) = toL(qr.Q(i, j)); for (int i = 0; i < k; ++i) for (int j = 0; j < n; ++j) Rk(i, j) = toL(qr.R(i, j));
         bool tri = true; for (int i = 0; i < k; ++i) for (int j = 0; j < i && j < n; ++j) if (Rk(i, j) != ZL(0)) tri = false;
         c.check(tri, "qr:R-not-upper-triangular:" + T_, "R(i,j) is non-zero below the diagonal");
@@ -377,7 +388,9 @@ template <class T> void qr_case(Case &c, Rng &r, int m, int n, bool colmajor, in
             Eigen::MatrixXcd Ad = A.cast<std::complex<double>>(); Eigen::JacobiSVD<Eigen::MatrixXcd> svd(Ad); double smax = svd.singularValues()(0), smin = svd.singularValues()(k - 1);
             if (smin > 0 && smax / smin * g < 0.05) {       // full rank with a usable condition number
                 double kappa = smax / smin; std::vector<T> b(m), x(n, T(777)); LZV bd(m); for (int i = 0; i < m; ++i) { b[i] = QT<T>::mk(rv()); bd(i) = toL(b[i]); }
-                std::vector<T> w2 = a; detail::QR<T> q2; q2.solve(m, n, w2.data(), b.data(), x.data(), colmajor ? detail::col_major : detail::row_major);
+                std::vector<T> w2 = a; detail::QR<T> q2f; detail::QR<T> &q2 = shared_solve ? *shared_solve : q2f; q2.solve(m, n, w2.data(), b.data(), x.data(), colmajor ? detail::col_major : detail::row_major);
+                if (shared_solve) { std::vector<T> wf = a, xf(n, T(777)); detail::QR<T> qf; qf.solve(m, n, wf.data(), b.data(), xf.data(), colmajor ? detail::col_major : detail::row_major); bool same = true; for (int j = 0; j < n; ++j) if (!(xf[j] == x[j])) same = false;
+                    c.check(same, "qr:reuse:solve-differs-from-fresh-object:" + T_, "solve() on a QR object that was used before differs from a fresh object", J().n("m", m).n("n", n)); }
                 LZV xr = A.completeOrthogonalDecomposition().solve(bd); LZV xd(n); for (int j = 0; j < n; ++j) xd(j) = toL(x[j]);
                 LZV rr = bd - A * xr; long double nx = xr.norm(), nr = rr.norm(); LZV dx = xd - xr;
                 double bound = m >= n ? 2 * kappa * g * (2 * (double)nx + (kappa + 1) * (double)nr / smax) : 6 * kappa * g * (double)nx;
@@ -392,12 +405,16 @@ template <class T> void qr_case(Case &c, Rng &r, int m, int n, bool colmajor, in
     } catch (const std::exception &e) { c.fail("qr:exception", e.what()); }
 }
 // block-valued QR (static_matrix specialisation): assemble scalar Q, R through the public accessors
-static void qr_block_case(Case &c, Rng &r, int m, int n, bool colmajor) {
+static void qr_block_case(Case &c, Rng &r, int m, int n, bool colmajor, detail::QR<static_matrix<double, 2, 2>> *shared = nullptr) {
     typedef static_matrix<double, 2, 2> Bk; const int B = 2; std::vector<Bk> a(m * n); LZ A(m * B, n * B);
     for (int i = 0; i < m * B; ++i) for (int j = 0; j < n * B; ++j) A(i, j) = ZL((double)r.uni(-1, 1), 0);
     for (int i = 0; i < m; ++i) for (int j = 0; j < n; ++j) { Bk b; for (int p = 0; p < B; ++p) for (int q = 0; q < B; ++q) b(p, q) = (double)A(i * B + p, j * B + q).real(); a[colmajor ? j * m + i : i * n + j] = b; }
     try {
-        detail::QR<Bk> qr; qr.factorize(m, n, a.data(), colmajor ? detail::col_major : detail::row_major);
+        std::vector<Bk> a0 = a; detail::QR<Bk> fresh; detail::QR<Bk> &qr = shared ? *shared : fresh; qr.factorize(m, n, a.data(), colmajor ? detail::col_major : detail::row_major);
+        if (shared) { detail::QR<Bk> qf; qf.factorize(m, n, a0.data(), colmajor ? detail::col_major : detail::row_major); bool same = true;
+            for (int i = 0; i < m; ++i) for (int j = 0; j < std::min(m, n); ++j) { Bk x = qr.Q(i, j), y = qf.Q(i, j); for (int k = 0; k < 4; ++k) if (!(x(k) == y(k))) same = false; }
+            for (int i = 0; i < std::min(m, n); ++i) for (int j = i; j < n; ++j) { Bk x = qr.R(i, j), y = qf.R(i, j); for (int k = 0; k < 4; ++k) if (!(x(k) == y(k))) same = false; }
+            c.check(same, "qr:reuse:factorize-differs-from-fresh-object:block2", "factorize() on a block QR object that was used before differs from a fresh object", J().n("m", m).n("n", n)); vf::obs_sum("qr_reused_factorizations"); }
         int M = m * B, Nn = n * B, k = std::min(M, Nn), kb = std::min(m, n); LZ Qk = LZ::Zero(M, kb * B), Rk = LZ::Zero(kb * B, Nn);
         for (int i = 0; i < m; ++i) for (int j = 0; j < kb; ++j) { Bk q = qr.Q(i, j); for (int p = 0; p < B; ++p) for (int s = 0; s < B; ++s) Qk(i * B + p, j * B + s) = q(p, s); }
         for (int i = 0; i < kb; ++i) for (int j = i; j < n; ++j) { Bk q = qr.R(i, j); for (int p = 0; p < B; ++p) for (int s = 0; s < B; ++s) Rk(i * B + p, j * B + s) = q(p, s); }
@@ -423,6 +440,25 @@ static void sub_qr() {
         Rng r(vf::case_seed("qr", idx)); int m = 1 + k % 6, n = 1 + (k / 6) % 6; bool colmajor = (k / 36) % 2;
         Case c("qr", idx, J().n("m", m).n("n", n).s("order", colmajor ? "col_major" : "row_major").s("type", "block2").s("kind", "random")); qr_block_case(c, r, m, n, colmajor); c.nontrivial(); }
     vf::obs_set("qr_space", "all shapes 1..12 x 1..12, both storage orders, double/complex/float; 2x2-block shapes 1..6 x 1..6");
+}
+
+// Object-reuse histories: ONE QR object factorizes / solves a sequence of matrices of varying shape, storage order and kind
+// (incl. rank-deficient and zero matrices); every step is checked with the oracles above and bitwise against a fresh object.
+// (coarsening::tentative_prolongation reuses one QR per thread for all aggregates.)
+template <class T> void qr_history(Case &c, Rng &r, int len) {
+    detail::QR<T> fac, sol;
+    for (int s = 0; s < len; ++s) { int m = (int)r.range(1, 12), n = (int)r.range(s ? 1 : 2, 12); bool cm = r.coin(); int kind = (int)r.range(0, 5); qr_case<T>(c, r, m, n, cm, kind, &fac, &sol); }
+}
+static void sub_qr_reuse() {
+    long N = vf::tier(400, 6000);
+    for (long idx = 0; idx < N; ++idx) {
+        if (!sel("qr_reuse", idx)) continue;
+        Rng r(vf::case_seed("qr_reuse", idx)); int type = idx % 4, len = (int)r.range(2, 8);
+        Case c("qr_reuse", idx, J().s("type", type == 0 ? "double" : type == 1 ? "complex" : type == 2 ? "float" : "block2").n("history_length", len).n("rep", idx / 4));
+        if (type == 0) qr_history<double>(c, r, len); else if (type == 1) qr_history<Z>(c, r, len); else if (type == 2) qr_history<float>(c, r, len);
+        else { detail::QR<static_matrix<double, 2, 2>> q; for (int s = 0; s < len; ++s) qr_block_case(c, r, (int)r.range(1, 6), (int)r.range(1, 6), r.coin(), &q); }
+        c.nontrivial();
+    }
 }
 
 //---------------------------------------------------------------------------
@@ -540,6 +576,7 @@ int main(int argc, char **argv) {
     if (vf::sub_enabled("skyline_dyadic")) sub_skyline_dyadic();
     if (vf::sub_enabled("inverse")) sub_inverse();
     if (vf::sub_enabled("qr")) sub_qr();
+    if (vf::sub_enabled("qr_reuse")) sub_qr_reuse();
     if (vf::sub_enabled("static_matrix")) sub_static_matrix();
     if (vf::sub_enabled("cm_exhaustive")) sub_cm_exhaustive();
     if (vf::sub_enabled("cm_random")) sub_cm_random();
